@@ -76,23 +76,35 @@ def run_one(rng, counters, tier):
                       "error_rate": 0.0, "gt_noise": 0.5, "coverage_gaps": 0, "paired": 0.0, "samples": ["sampleA"], "multiallelic": 0.0, "dead_chrom": None,
                       "adjacent_cut": False, "gt_missing": 0.0, "min_gap": 40})
             P = p["ploidy"]
+        prephase = rng.random() < 0.2
+        if prephase and p["chrom_len"] >= 2000 and rng.random() < 0.6:
+            p["coverage_gaps"] = rng.choice([2, 3])  # several read-connected stretches for the long-range sets to straddle
+            p["gaps_between_variants"] = True
+            if rng.random() < 0.6:
+                p["all_het_samples"] = [p["samples"][0]]  # pre-phasing and read matrix then cover the same variants
         sim = genome.simulate_poly(rng, tmp, p)
-        hostile = rng.random() < 0.3
+        hostile = rng.random() < 0.3 and not prephase
         if hostile:
             # extra records and pre-existing phase; genotypes stay of ploidy P
             new = []
             for r in sim.doc.records:
                 if rng.random() < 0.15:
-                    kind = rng.choice(["symbolic", "noalt", "dup", "mixeddup"])
+                    kind = rng.choice(["symbolic", "noalt", "dup", "mixeddup", "manyalt"])
                     if kind == "mixeddup":
                         # a multi-ALT record (one SNV allele, one longer allele) in front of the variant at the same position
                         ref, alts = r["ref"], [rng.choice([b for b in "ACGT" if b != r["ref"]]), r["ref"] + "TT"]
                         if rng.random() < 0.5:
                             alts.reverse()
+                    elif kind == "manyalt":
+                        # an STR-like record with 16-17 ALT alleles (more than a genotype object can hold) in front of the variant at the
+                        # same position; the readers pass over it, so must the writer
+                        ref, alts = r["ref"], [r["ref"] + "CA" * k_ for k_ in range(1, rng.choice([17, 18]))]
                     else:
                         ref, alts = (r["ref"], [rng.choice([b for b in "ACGT" if b != r["ref"]])]) if kind == "dup" else gvcf.random_ref_alt(rng, kind)
                     calls = [{"GT": "/".join(["0"] * P), "GQ": "30"} for _ in sim.doc.samples]
-                    x = {"chrom": r["chrom"], "pos": r["pos"], "id": ".", "ref": ref[:1] if kind not in ("dup", "mixeddup") else ref, "alts": alts, "qual": ".", "filter": ".", "info": ".",
+                    if kind == "manyalt":
+                        calls = [{"GT": "/".join(["0"] * (P - 2) + ["3", "15"]), "GQ": "30"} for _ in sim.doc.samples]
+                    x = {"chrom": r["chrom"], "pos": r["pos"], "id": ".", "ref": ref[:1] if kind not in ("dup", "mixeddup", "manyalt") else ref, "alts": alts, "qual": ".", "filter": ".", "info": ".",
                          "fmt": ["GT", "GQ"], "calls": calls, "kind": kind}
                     if kind == "dup":
                         new.append(r)
@@ -108,13 +120,33 @@ def run_one(rng, counters, tier):
                 "only_snvs": rng.random() < 0.15}
         if len(p["samples"]) > 1 and rng.random() < 0.3:
             opts["samples"] = [p["samples"][0]]
+        if p["n_chrom"] > 1 and rng.random() < 0.35:
+            # --chromosome: a subset (in any position of the file), the rest of the VCF has to be passed through
+            opts["chromosomes"] = rng.sample(sim.chroms, rng.randint(1, len(sim.chroms) - 1))
+        vcf_in = sim.vcf
+        doc_in = sim.doc
+        if prephase:
+            # --use-prephasing with a partial pre-phasing from "another source": some calls left unphased, a sample possibly
+            # without any, long-range sets that continue behind a set nested in their gap
+            doc_in, _ = genome.truth_phased_doc_poly(sim, rng, block_len=(2, 8), straddle=rng.choice([0.5, 1.0]) if p.get("gaps_between_variants") else rng.choice([0.0, 0.5]),
+                                                     cut_at_gaps=bool(p.get("gaps_between_variants")))
+            raw = rng.choice([None, None, 0]) if not p.get("all_het_samples") else None
+            frac = rng.choice([0.0, 0.1, 0.5]) if not p.get("all_het_samples") else 0.0
+            for r in doc_in.records:
+                for ci, call in enumerate(r["calls"]):
+                    if "|" in call.get("GT", "") and (ci == raw or rng.random() < frac):
+                        call["GT"] = "/".join(sorted(call["GT"].split("|")))
+                        call["PS"] = "."
+            vcf_in = os.path.join(tmp, "prephased.vcf")
+            doc_in.write(vcf_in)
+            opts["use_prephasing"] = True
         desc = {"params": p, "options": opts, "hostile": hostile}
         if hostile and not vcfdiff.htslib_roundtrips(sim.vcf, os.path.join(tmp, "rt.vcf")):
             return [], False, desc
         out = os.path.join(tmp, "out.vcf")
         del _CAP["calls"][:]
         try:
-            run_polyphase(phase_input_files=list(sim.bams), variant_file=sim.vcf, reference=sim.fasta, output=out, write_command_line_header=False, **opts)
+            run_polyphase(phase_input_files=list(sim.bams), variant_file=vcf_in, reference=sim.fasta, output=out, write_command_line_header=False, **opts)
         except CommandLineError as e:
             counters["refused"] = counters.get("refused", 0) + 1
             return [], False, desc
@@ -125,16 +157,20 @@ def run_one(rng, counters, tier):
         if p["depth"] >= 150:
             counters["runs_with_very_deep_coverage"] = counters.get("runs_with_very_deep_coverage", 0) + 1
         counters["genotype_noise_sites"] = counters.get("genotype_noise_sites", 0) + getattr(sim, "gt_noise_sites", 0)
+        if opts.get("chromosomes"):
+            counters["runs_with_chromosome_selection"] = counters.get("runs_with_chromosome_selection", 0) + 1
         if p["n_chrom"] > 1 and p["dead_chrom"]:
             counters["runs_with_unphasable_chromosome"] = counters.get("runs_with_unphasable_chromosome", 0) + 1
         calls = list(_CAP["calls"])
         text = open(out).read()
         viol = []
         meta, osamples, orecs = vcftext.parse(text)
-        _, isamples, irecs = vcftext.parse(sim.doc.text())
+        _, isamples, irecs = vcftext.parse(doc_in.text())
+        if opts.get("use_prephasing"):
+            counters["runs_with_prephasing"] = counters.get("runs_with_prephasing", 0) + 1
         targets = opts.get("samples") or p["samples"]
         in_gt = {}
-        for ri in sim.doc.records:
+        for ri in doc_in.records:
             if ri.get("kind") != "snv":
                 continue  # hostile extra records (symbolic / no ALT / second record of a position) are not read as variants
             for k_, s_ in enumerate(sim.doc.samples):
@@ -150,6 +186,11 @@ def run_one(rng, counters, tier):
                 d = vcftext.decode_call(ro["calls"][si])
                 if d is None:
                     continue
+                if ro["calls"][si] == ri["calls"][si] and not any(c_["sample"] == s and c_["chromosome"] == ro["chrom"] for c_ in calls):
+                    # phase that was already in the input (pre-phasing), on a chromosome that was passed through as a whole
+                    # (not selected, or nothing to phase for this sample): not a genotype "phased by polyphase"
+                    counters["prephased_calls_passed_through"] = counters.get("prephased_calls_passed_through", 0) + 1
+                    continue
                 counters["phased_calls_checked"] = counters.get("phased_calls_checked", 0) + 1
                 nphased += 1
                 gin, _ = vcftext.split_gt(ri["calls"][si].get("GT"))
@@ -159,6 +200,8 @@ def run_one(rng, counters, tier):
                 if len(set(gin)) < 2:
                     viol.append({"mech": "homozygous-phased", "msg": "%s %s:%d homozygous %r phased" % (s, ro["chrom"], ro["pos"], gin)})
                 sets.setdefault((ro["chrom"], d[1]), []).append(ro["pos"] - 1)
+                if opts.get("chromosomes") and ro["chrom"] not in opts["chromosomes"]:
+                    viol.append({"mech": "phased-on-unselected-chromosome", "msg": "%s %s:%d phased although --chromosome selects %r" % (s, ro["chrom"], ro["pos"], opts["chromosomes"])})
             # intervals
             for chrom in sim.chroms:
                 tr = [c for c in calls if c["sample"] == s and c["chromosome"] == chrom]
@@ -196,7 +239,7 @@ def run_one(rng, counters, tier):
             if P >= 3 and nphased >= 5:
                 nt = True
         # passthrough
-        viol += pipeline.judge_passthrough(sim.vcf, out, sim.doc, set(targets), set(), opts["tag"], opts["only_snvs"], False, counters, allow_multiallelic=True)
+        viol += pipeline.judge_passthrough(vcf_in, out, doc_in, set(targets), set(opts.get("chromosomes") or []), opts["tag"], opts["only_snvs"], False, counters, allow_multiallelic=True)
         seen = set()
         viol = [x for x in viol if not (x["mech"] in seen or seen.add(x["mech"]))]
         return viol, nt, desc
